@@ -10,7 +10,16 @@ DRIVERS = [('TestCore', 'core', 'TraceCore', {}), ('TestCore', 'core', 'TraceCor
            ('TestRep', 'rep', 'TraceRep', {}), ('TestRespondent', 'respondent', 'TraceRespondent', {}),
            ('TestSub', 'sub', 'TraceSub', {}), ('TestSurveyor', 'surveyor', 'TraceSurveyor', {}),
            ('TestWire', 'wire', 'TraceWire', {}), ('TestWireStall', 'wirestall', 'TraceWire', {}),
-           ('TestMsg', 'msg', 'TraceMsg', {}), ('TestHops', 'hops', 'TraceHops', {}), ('TestRaw', None, None, {})]
+           ('TestMsg', 'msg', 'TraceMsg', {}), ('TestHops', 'hops', 'TraceHops', {}), ('TestRaw', None, None, {}),
+           ('TestChain', 'chain', 'TraceChain', {}), ('TestMesh', 'mesh', 'TraceMesh', {'VERIF_N': '1'}),
+           ('TestHandshaker', 'handshaker', 'TraceHandshaker', {}), ('TestInproc', 'inproc', 'TraceInproc', {}),
+           ('TestRawStorm', 'rawstorm', 'TraceBurst', {'VERIF_N': '3000'}),
+           ('TestCloseReal', 'closereal', 'TraceLifecycle', {'VERIF_N': '100'}), ('TestErrorsReal', 'errors', 'TraceErrors', {}),
+           ('TestLinkReal', 'link', 'TraceLink', {}), ('TestWireReal', 'wirereal', 'TraceWire', {}),
+           ('TestMacatArgs', 'macatargs', 'TraceMacat', {'VERIF_N': '40'}), ('TestMacatFormat', 'macatfmt', 'TraceMacat', {'VERIF_N': '1'}),
+           ('TestMacatDur', 'macatdur', 'TraceMacat', {'VERIF_N': '10'}),
+           ('TestReq', 'req', 'TraceReq', {'VERIF_MIX': 'close'}), ('TestRep', 'rep', 'TraceRep', {'VERIF_MIX': 'deadline'}),
+           ('TestSub', 'sub', 'TraceSub', {'VERIF_MIX': 'deadline'}), ('TestRaw', None, None, {'VERIF_MIX': 'deadline', 'VERIF_N': '6'})]
 ENG = {'pair': 'xpair', 'pair1': 'xpair1', 'push': 'xpush', 'pull': 'xpull', 'pub': 'xpub', 'bus': 'xbus', 'star': 'xstar'}
 def main():
     rounds = int(sys.argv[1]) if len(sys.argv) > 1 and sys.argv[1].isdigit() else 3
@@ -28,7 +37,8 @@ def main():
                 for test, name, mod, extra in DRIVERS:
                     out = '/tmp/shake-out'
                     shutil.rmtree(out, ignore_errors=True)
-                    env = dict(env0, VERIF_OUT=out, VERIF_SEED=str(seed), VERIF_N='40', GOMAXPROCS=str(procs), **extra)
+                    env = dict(env0, VERIF_OUT=out, VERIF_SEED=str(seed), VERIF_N='40', GOMAXPROCS=str(procs))
+                    env.update(extra)
                     p = subprocess.run(['/tmp/shake.test', '-test.run', '^%s$' % test, '-test.count=1'], cwd='/verif/harness', env=env, capture_output=True, text=True)
                     if p.returncode != 0:
                         print('DRIVER FAIL', test, seed, procs, p.stdout[-500:]); bad += 1; continue
